@@ -4,7 +4,32 @@ from .cfg import forward
 from .vbe import cond_atom
 
 
-def branch_atoms(fn):
+def resolve_local_atom(fn, atom, pol, depth=0):
+    """If the branch atom is a bool local with exactly one definition (its initialiser) follow it:
+    `bool is_used = f(x); if (!is_used) ...` tests f(x)."""
+    x = fn.e(atom)
+    if depth > 4 or not x or x["k"] != "ref" or x.get("dk") != "local":
+        return atom, pol
+    did = x["did"]
+    init = None
+    ndefs = 0
+    for i, y in fn.ex.items():
+        if y["k"] == "decl":
+            for v in y["vars"]:
+                if v["did"] == did and v.get("init"):
+                    init = v["init"]
+                    ndefs += 1
+        elif y["k"] == "binop" and y["op"].endswith("=") and y["op"] not in ("==", "!=", "<=", ">="):
+            l = fn.e(fn.strip(y["lhs"]))
+            if l and l["k"] == "ref" and l.get("did") == did:
+                ndefs += 1
+    if ndefs != 1 or init is None:
+        return atom, pol
+    a2, p2 = cond_atom(fn, init)
+    return resolve_local_atom(fn, a2, pol == p2, depth + 1)
+
+
+def branch_atoms(fn, resolve_locals=False):
     """block id -> (atom expr id, polarity).  Polarity True: successor 0 (condition true) is the
     edge on which the atom holds."""
     out = {}
@@ -12,19 +37,21 @@ def branch_atoms(fn):
         term = b.get("term")
         if term and term.get("cond") and len(b["succs"]) == 2:
             atom, pol = cond_atom(fn, term["cond"])
+            if resolve_locals:
+                atom, pol = resolve_local_atom(fn, atom, pol)
             out[b["id"]] = (atom, pol)
     return out
 
 
 class Must:
-    def __init__(self, fn, elem_fx=None, edge_fx=None, init=frozenset()):
+    def __init__(self, fn, elem_fx=None, edge_fx=None, init=frozenset(), resolve_locals=False):
         """elem_fx(eid, x) -> (adds, kills) or None;  edge_fx(block, succ_index, atom, holds) -> adds
         where `atom` is the stripped branch condition and `holds` says whether it is true on
         that edge."""
         self.fn = fn
         self.elem_fx = elem_fx
         self.edge_fx = edge_fx
-        self.atoms = branch_atoms(fn)
+        self.atoms = branch_atoms(fn, resolve_locals)
         self.fx = {}
         for b in fn.blocks.values():
             lst = []
